@@ -659,13 +659,12 @@ impl SymbolTable {
                     add_label(&mut label_map, label, 0, true)?;
                 }
                 StmtKind::Directive(Directive::Fill(PCOffset::Label(label))) => {
-                    let label_text = label.name.to_uppercase();
-                    if let Some(SymbolData { external: true, .. }) = label_map.get(&label_text) {
-                        let Some(cur) = cursor.as_ref() else {
-                            return Err(AsmErr::new(AsmErrKind::UndetAddrStmt, stmt.span.clone()));
-                        };
-
-                        rel_map.insert(cur.lc, label_text);
+                    // Whether the label is external is only known once every `.external`
+                    // declaration has been seen (a declaration may come after its uses),
+                    // so record the entry now and keep only the external ones after the pass.
+                    // (A `.fill` outside of a block is rejected in the second pass.)
+                    if let Some(cur) = cursor.as_ref() {
+                        rel_map.insert(cur.lc, label.name.to_uppercase());
                     }
                 },
                 _ => {}
@@ -695,7 +694,8 @@ impl SymbolTable {
         if let Some(cur) = cursor {
             return Err(AsmErr::new(AsmErrKind::UnclosedOrig, cur.block_orig));
         }
-        
+        rel_map.retain(|_, label| matches!(label_map.get(label), Some(SymbolData { external: true, .. })));
+
         let debug_symbols = debug_sym.map(|(lines, src_info)| DebugSymbols {
             line_map: LineSymbolMap::new(lines)
             .unwrap_or_else(|| {
